@@ -661,6 +661,97 @@ def translate_all_versions(run: Run) -> dict:
     return info
 
 
+def install_histories(run: Run) -> None:
+    """Histories of install_unicode_data(): after EVERY installation (version only, or the same /
+    another version from an alternative categories module) every consumer must see the installed
+    tables: the \\d and \\w shortcut subsets (lazily cached in unicode_subsets), unicode_subset(),
+    unicode_category().  Spec: shortcut(d) = category Nd, shortcut(w) = L ∪ M ∪ N ∪ S of the data
+    installed NOW; membership is compared on the code points where the tables differ."""
+    import os
+    import shutil
+    import tempfile
+    import warnings
+    from elementpath.regex import unicode_subsets as us
+    from elementpath.regex import character_classes as cc
+    st = run.stats
+    tmpdir = tempfile.mkdtemp(prefix='c13verif')
+    rng = run.rng
+
+    def views():
+        nd = set(us.unicode_category('Nd'))
+        w = set()
+        for k in 'LMNS':
+            w |= set(us.unicode_category(k))
+        return nd, w
+
+    def check(hist):
+        nd, w = views()
+        d = set(cc.d_shortcut())
+        ww = set(cc.w_shortcut())
+        sub = set(us.unicode_subset('Nd'))
+        cls = set(cc.CharacterClass(r'\d'))
+        st.case({'install_history': hist}, nontrivial=True)
+        st.count('install-history-step')
+        for label, got, exp in (('\\d shortcut', d, nd), ('\\w shortcut', ww, w), ("unicode_subset('Nd')", sub, nd),
+                                ('CharacterClass(\\d)', cls, nd)):
+            if got != exp:
+                diff = sorted(got ^ exp)[:4]
+                run.disagree(Disagreement({'install_history': hist, 'view': label, 'codepoints': diff},
+                                          impl=f'{label} differs from the installed table on {diff}',
+                                          spec='equal to the installed category data',
+                                          what='installed-data-visible', site='unicode_subsets.install_unicode_data / lazy_subset cache'))
+                return False
+        return True
+
+    try:
+        with warnings.catch_warnings():
+            warnings.simplefilter('ignore')
+            us.install_unicode_data()
+            version = us.unicode_version()
+            names = ['Cc', 'Cf', 'Cs', 'Co', 'Cn', 'Lu', 'Ll', 'Lt', 'Lm', 'Lo', 'Mn', 'Mc', 'Me', 'Nd', 'Nl', 'No',
+                     'Pc', 'Pd', 'Ps', 'Pe', 'Pi', 'Pf', 'Po', 'Sm', 'Sc', 'Sk', 'So', 'Zs', 'Zl', 'Zp',
+                     'C', 'L', 'M', 'N', 'P', 'S', 'Z']
+            # alternative tables for the SAME version: one code point moved No -> Nd (U+2460), and
+            # another variant moving a punctuation mark into Sm (changes \w)
+            mods = []
+            for tag, moves in (('a', [(0x2460, 'No', 'Nd')]), ('b', [(0x2460, 'No', 'Nd'), (0x21, 'Po', 'Sm')])):
+                table = {k: us.unicode_category(k).copy() for k in names}
+                for cp, src, dst in moves:
+                    table[src].discard(cp)
+                    table[dst].add(cp)
+                    if src[0] != dst[0]:
+                        table[src[0]].discard(cp)
+                        table[dst[0]].add(cp)
+                name = f'c13verif_{tag}_unicode_categories'
+                with open(os.path.join(tmpdir, name + '.py'), 'w') as fp:
+                    fp.write(f'UNICODE_VERSIONS = [{version!r}]\n'
+                             f'UNICODE_CATEGORIES = {({k: list(v.codepoints) for k, v in table.items()})!r}\n')
+                mods.append(name)
+            sys.path.append(tmpdir)
+            steps_pool = [(None, None), (version, None), ('16.0.0', None), ('13.0.0', None),
+                          (version, mods[0]), (version, mods[1])]
+            for _ in range(run.scale(6, 40)):
+                hist = []
+                us.install_unicode_data()
+                check(['default'])          # first use builds the lazy cache
+                for _ in range(rng.randint(2, 5)):
+                    v, m = rng.choice(steps_pool)
+                    us.install_unicode_data(v, m)
+                    hist.append([v, m])
+                    if not check(list(hist)):
+                        return
+    except Exception as e:      # the history machinery itself must not mask a verdict
+        run.disagree(Disagreement({'install_history': 'exception'}, impl=f'ERR:{type(e).__name__}:{e}',
+                                  spec='installations succeed', what='installed-data-visible'))
+    finally:
+        with warnings.catch_warnings():
+            warnings.simplefilter('ignore')
+            us.install_unicode_data()
+        if tmpdir in sys.path:
+            sys.path.remove(tmpdir)
+        shutil.rmtree(tmpdir, ignore_errors=True)
+
+
 def body(run: Run) -> int:
     if getattr(run, 'replay', None):
         return replay(run)
@@ -692,6 +783,7 @@ def body(run: Run) -> int:
                                        what='blocks-disjoint', site='unicode_subsets.UnicodeData / unicode_blocks'))
     for d in table_viol:
         run.disagree(d)
+    install_histories(run)
     try:
         correspond(run)
     except DriverError as e:
